@@ -70,6 +70,9 @@ def generate(rng, tier, index):
     return {"world": wp, "producer": producer, "location": location, "w": w_rpc, "r": r_rpc,
             "selections": sels, "scribble": rng.random() < 0.5,
             "touch_images": rng.random() < 0.3,
+            # a cached open BEFORE any cache exists (same process unless a restart follows): what
+            # it learns about missing caches must not outlive the production of one
+            "early_cached_open": rng.random() < 0.4,
             "relocate_to": {"backend": rng.choice(["local", "file", "simfs", "simfs_opt",
                                                    "memory"]),
                             "dirs": rng.choice([["moved"], ["up", "loaded"], []])},
@@ -111,6 +114,15 @@ def execute(plan):
         except Exception as e:  # noqa: BLE001
             bump("reference-raised:" + type(e).__name__)
             return common.outcome(SIM, violations, keys, stats)
+        if plan.get("early_cached_open"):
+            try:
+                t0 = w.open(records_per_chunk=r)
+                diffs = tree_diff(ref, t0)
+            except Exception as e:  # noqa: BLE001
+                diffs = ["raised " + exc_text(e)]
+            bump("early-cached-opens")
+            if diffs:
+                violations.append(Violation(ID, "no-cache-open-differs", site, {"diffs": diffs}))
         # ------------------------------------------------------------ produce
         try:
             if producer in ("option", "option-moved"):
